@@ -125,4 +125,36 @@ theorem getMask_ne_plain (r : Recs) (m : List Bool) (hn : r.rows.length = 1) (hk
     | [b], hk => exact absurd rfl hk
 
 end Recs
+
+/-! ### the checked mask of `__getitem__` (repaired code) against the plain reading: no side condition -/
+
+namespace Table
+
+theorem getMaskC_ok {t t' : Table} {m : List Bool} (h : t.getMaskC m = .ok t') : t.getMask m = .ok t' := by
+  unfold getMaskC at h
+  split at h
+  · exact h
+  · cases h
+
+/-- **masks, unconditionally**: `d[mask]` of the model, seen as records, IS the plain zip+filter reading -
+one flag per record, or a single flag, `ValueError` otherwise (also for a one-row table) -/
+theorem abs_getMaskC (t : Table) (m : List Bool) : (t.getMaskC m).map abs = (abs t).getMaskPlain m := by
+  unfold getMaskC
+  by_cases hg : m.length = t.nrows ∨ m.length = 1
+  · rw [if_pos hg, abs_getMask]
+    apply Recs.getMask_eq_plain
+    by_cases h1 : m.length = 1
+    · exact Or.inr h1
+    · left; rw [abs_rows_length]; omega
+  · rw [if_neg hg]
+    have h1 : m.length ≠ (abs t).rows.length := by rw [abs_rows_length]; exact fun h => hg (Or.inl h)
+    have h2 : m.length ≠ 1 := fun h => hg (Or.inr h)
+    unfold Recs.getMaskPlain
+    rw [if_neg h1]
+    match m, h2 with
+    | [], _ => rfl
+    | [_], h2 => exact absurd rfl h2
+    | _ :: _ :: _, _ => rfl
+
+end Table
 end Pyg
